@@ -325,3 +325,12 @@ func (m *Model) Clone() *Model {
 	c.wlog = append([]wentry{}, m.wlog...)
 	return &c
 }
+
+func (m *Model) pinnedAbove(t int64) bool {
+	for p, c := range m.Pins {
+		if c > 0 && p > t {
+			return true
+		}
+	}
+	return false
+}
